@@ -290,6 +290,11 @@ def _drive(rep: Report, tier: str, seed: int, P: Any, d: Path, futs: dict[str, A
             for o in (hr_ops if not big else hr_ops[:3]):
                 batch.add(w, P.run_hr_session(c, o, argv=P.hr_argv(o, rnd), content=not big), mh)
 
+    # a caller that re-uses one tag list object for many calls, result() records in between
+    wshare = P.write_log(dict(P.spec_random(seed, 1003, 60, "plain"), share_tags=True), d, "share")
+    cshare = P.Container(wshare, "zst", "all", d)
+    for o in (P.op("fwd", 8), P.op("rev", 8), P.op("fwd", 5)):
+        batch.add(wshare, P.run_reader_session(cshare, [o], content=True), meta("reader", cshare, "shared-tag-lists"))
     # a long run whose writer thread is held up while the run keeps logging (slow / remote artifacts directory)
     wslow = P.write_log(dict(P.spec_random(seed, 1002, 15000 if quick else 80000, "plain"), slow_writer=True), d, "slow")
     cslow = P.Container(wslow, "zst", "all", d)
